@@ -104,6 +104,8 @@ type Config struct {
 	AllowEOF       bool // read may return 0
 	AllowAgain     bool // read/write may return EAGAIN
 	AllowPartial   bool // read/write may transfer fewer bytes than asked
+	MaxShort       int  // with SplitPartial: at most this many short transfers per history (0: unlimited)
+	SplitPartial   bool // with AllowPartial: a short WRITE takes a case-split concrete count (1..len-1) instead of a symbolic one
 	AllowHup       bool // epoll may report ERR/HUP
 	Eager          bool // epoll_wait reports everything that is ready, with full masks (a loop that is "run until quiescent")
 	Batch          int  // max entries per epoll_wait
@@ -120,7 +122,10 @@ type Kernel struct {
 	Log   Ledger
 	Waits int
 	DataOps int
+	Shorts  int
 }
+
+func shortAllowed() bool { return K.Cfg.MaxShort == 0 || K.Shorts < K.Cfg.MaxShort }
 
 // Ledger records what happened, for harness oracles.
 type Ledger struct {
@@ -319,8 +324,9 @@ func Read(fd int, p []byte) (int, syscall.Errno) {
 			if n > len(p) {
 				n = len(p)
 			}
-			if K.Cfg.AllowPartial && n > 1 && vf.Bool("read.short") {
+			if K.Cfg.AllowPartial && n > 1 && shortAllowed() && vf.Bool("read.short") {
 				n = 1 + vf.Choice("read.n", n-1)
+				K.Shorts++
 			}
 			copy(p, f.Script[f.ScriptOff:f.ScriptOff+n])
 			f.ScriptOff += n
@@ -379,7 +385,12 @@ func Write(fd int, p []byte) (int, syscall.Errno) {
 			return -1, syscall.EINTR
 		}
 		n := len(p)
-		if K.Cfg.AllowPartial {
+		if K.Cfg.AllowPartial && K.Cfg.SplitPartial {
+			if n > 1 && shortAllowed() && vf.Bool("write.short") {
+				n = 1 + vf.Choice("write.n", n-1)
+				K.Shorts++
+			}
+		} else if K.Cfg.AllowPartial {
 			n = vf.Len("write.n")
 			vf.Assume(vf.All(1 <= n, n <= len(p)))
 		}
